@@ -501,7 +501,8 @@ def oracle_c04(steps: list[Step], counters: dict | None = None) -> list[Violatio
                 # members were re-wrapped without need
                 out.append(Violation("C04.layout_flip", "set %s %r expanded a one-line set although the value fits on a line: %r -> %r" % (st.op["path"], value[:40], st.before[-120:], (st.out or "")[-160:]), st.i, dict(f)))
                 continue
-        if canonical and f["depth"] and _paren_opens_inline(st.dec_before) != _paren_opens_inline(st.dec_out):
+        if canonical and f["depth"] and (_paren_opens_inline(st.dec_before) != _paren_opens_inline(st.dec_out)
+                                         or (st.pred[1] in ("create_layer", "drop_layer") and _wrapper_inline_flags(st.dec_before) != _wrapper_inline_flags(st.dec_out))):
             # a let created / pruned directly inside a parenthesis moves the first token off (or onto) the line of
             # `(` (non-RFC `f ( let …`, see section 7 item 18): the content is re-indented as a whole;
             # token and comment clauses only
@@ -558,6 +559,22 @@ def _paren_opens_inline(dec: reader.Decoded):
     if not kids:
         return None
     return kids[0].start_point[0] == par.start_point[0]
+
+
+def _wrapper_inline_flags(dec: reader.Decoded):
+    """For every non-let wrapper around the target (lambda, with, assert, call, parenthesis): does what it wraps
+    start on the line where the wrapper's preceding token (`:`, `;`, callee, `(`) ends?"""
+    flags = []
+    ws = list(dec.shape.wrappers)
+    for k, (kind, node) in enumerate(ws):
+        if kind == "let":
+            continue
+        inner = ws[k + 1][1] if k + 1 < len(ws) else dec.shape.target
+        prev = inner.prev_sibling
+        while prev is not None and prev.type == "comment":
+            prev = prev.prev_sibling
+        flags.append(None if prev is None else prev.end_point[0] == inner.start_point[0])
+    return tuple(flags)
 
 
 def _gap_comments(dec: reader.Decoded):
@@ -641,7 +658,8 @@ def oracle_c09(steps: list[Step], counters: dict | None = None) -> list[Violatio
             dedented = True
         # a let that sat on the line of `(` (non-RFC) was pruned: the library opens the parenthesis on a new line
         # and indents what is inside; only the indentation of the body may differ then
-        reopened = kind == "drop_layer" and _paren_opens_inline(st.dec_before) is True and _paren_opens_inline(st.dec_out) is False and tokens_same
+        reopened = (kind in ("drop_layer", "create_layer") and None not in (_paren_opens_inline(st.dec_before), _paren_opens_inline(st.dec_out))
+                    and _paren_opens_inline(st.dec_before) != _paren_opens_inline(st.dec_out) and tokens_same)
         if reopened:
             bump("probe:paren_reopened")
         if canonical and body_b != body_a and not (reindented and body_a == shifted) and not dedented and not reopened:
